@@ -242,9 +242,22 @@ pub fn apply_one(ev0: &Value) -> Vec<Value> {
         }),
         "evaluate_samples" => guarded(|| {
             let inst = instance_from(&inp["inst"]);
-            let samples = samples_from(&inp["samples"]);
+            // the Samples message as given, or built through the SDK's own `Samples::add_sample`, one call per (id, state)
+            // in the listed order (the judge always compares with evaluating the SUBMITTED state of each id alone)
+            let given = samples_from(&inp["samples"]);
+            let samples = if inp.get("build").and_then(|b| b.as_str()) == Some("add_sample") {
+                let mut s = v1::Samples::default();
+                for e in &given.entries {
+                    for id in &e.ids {
+                        s.add_sample(*id, e.state.clone().unwrap_or_default());
+                    }
+                }
+                s
+            } else {
+                given.clone()
+            };
             let sids: Vec<u64> = samples.ids().cloned().collect();
-            let solo: Vec<Value> = samples
+            let solo: Vec<Value> = given
                 .iter()
                 .map(|(sid, st)| json!({"sid": sid, "r": guarded(|| sol_or_err(inst.evaluate(st)))}))
                 .collect();
